@@ -380,11 +380,25 @@ Proof.
   intros Hl Hn Hrd Hp. unfold ciw_names in Hn. vm_compute in Hn.
   repeat (destruct Hn as [<-|Hn]; [navl Hl Hrd; cbn [fbind]; rewrite Hp; reflexivity|]). contradiction.
 Qed.
-Lemma cb_parse l t0 name a tok e : lower t0 = name -> In name cb_names -> String.eqb a "=" = false -> parse_immediate [tok] l = FOk e ->
+(* CB-type: the shifts / c.andi take an immediate; c.beqz / c.bnez take a reference (parse_item: cref_imm) -- a literal offset here *)
+Definition cbi_names : list string := ["c.srli"; "c.srai"; "c.andi"].
+Definition cbz_names : list string := ["c.beqz"; "c.bnez"].
+Lemma cb_names_split : forallb (fun n => mem_str n (cbi_names ++ cbz_names)) cb_names = true /\
+                       forallb (fun n => mem_str n cb_names) (cbi_names ++ cbz_names) = true.
+Proof. vm_compute. auto. Qed.
+Lemma cbi_parse l t0 name a tok e : lower t0 = name -> In name cbi_names -> String.eqb a "=" = false -> parse_immediate [tok] l = FOk e ->
   parse_item l [t0; a; tok] = FOk (IInstr "CBTypeInstruction" name [("rs1", R a); ("imm", FExpr e)] true).
 Proof.
-  intros Hl Hn Hrd Hp. unfold cb_names in Hn. vm_compute in Hn.
-  repeat (destruct Hn as [<-|Hn]; [navl Hl Hrd; cbn [fbind]; rewrite Hp; reflexivity|]). contradiction.
+  intros Hl Hn Hrd Hp. unfold cbi_names in Hn. simpl in Hn.
+  repeat (destruct Hn as [<-|Hn]; [navl Hl Hrd; cbn [orb]; cbv beta iota zeta; cbn [fbind]; rewrite Hp; reflexivity|]). contradiction.
+Qed.
+Lemma cbz_parse l t0 name a tok e : lower t0 = name -> In name cbz_names -> String.eqb a "=" = false -> is_int tok = true ->
+  parse_immediate [tok] l = FOk e ->
+  parse_item l [t0; a; tok] = FOk (IInstr "CBTypeInstruction" name [("rs1", R a); ("imm", FExpr e)] true).
+Proof.
+  intros Hl Hn Hrd Hi Hp. unfold cbz_names in Hn. simpl in Hn.
+  repeat (destruct Hn as [<-|Hn]; [navl Hl Hrd; cbn [orb]; cbv beta iota zeta; unfold cref_imm; rewrite Hi; cbn [fbind]; rewrite Hp; reflexivity|]).
+  contradiction.
 Qed.
 Lemma cia_parse l t0 name tok e : lower t0 = name -> In name cia_names -> parse_immediate [tok] l = FOk e ->
   parse_item l [t0; tok] = FOk (IInstr "CIATypeInstruction" name [("imm", FExpr e)] true).
@@ -392,11 +406,11 @@ Proof.
   intros Hl Hn Hp. unfold cia_names in Hn. vm_compute in Hn.
   repeat (destruct Hn as [<-|Hn]; [navl Hl Hl; cbn [fbind]; rewrite Hp; reflexivity|]). contradiction.
 Qed.
-Lemma cj_parse l t0 name tok e : lower t0 = name -> In name cj_names -> parse_immediate [tok] l = FOk e ->
+Lemma cj_parse l t0 name tok e : lower t0 = name -> In name cj_names -> is_int tok = true -> parse_immediate [tok] l = FOk e ->
   parse_item l [t0; tok] = FOk (IInstr "CJTypeInstruction" name [("imm", FExpr e)] true).
 Proof.
-  intros Hl Hn Hp. unfold cj_names in Hn. vm_compute in Hn.
-  repeat (destruct Hn as [<-|Hn]; [navl Hl Hl; cbn [fbind]; rewrite Hp; reflexivity|]). contradiction.
+  intros Hl Hn Hi Hp. unfold cj_names in Hn. vm_compute in Hn.
+  repeat (destruct Hn as [<-|Hn]; [navl Hl Hl; unfold cref_imm; rewrite Hi; cbn [fbind]; rewrite Hp; reflexivity|]). contradiction.
 Qed.
 Lemma cl_parse l t0 name a b tok e : lower t0 = name -> In name cl_names -> String.eqb a "=" = false -> String.eqb tok "(" = false ->
   parse_immediate [tok] l = FOk e ->
@@ -423,12 +437,20 @@ Inductive c_form (l : line) : list string -> string -> list arg -> Prop :=
     c_form l [t0; a; b] name [AStr a; AStr b]
 | FC_r t0 name a :                      (* c.jr c.jalr *)
     lower t0 = name -> In name crj_names -> c_form l [t0; a] name [AStr a]
-| FC_ri t0 name a tok x v :             (* c.addi c.li c.lui c.slli c.lwsp / c.swsp / c.addi4spn / c.beqz c.bnez c.srli c.srai c.andi *)
-    lower t0 = name -> In name (ci_names ++ css_names ++ ciw_names ++ cb_names) -> String.eqb a "=" = false ->
+| FC_ri t0 name a tok x v :             (* c.addi c.li c.lui c.slli c.lwsp / c.swsp / c.addi4spn / c.srli c.srai c.andi *)
+    lower t0 = name -> In name (ci_names ++ css_names ++ ciw_names ++ cbi_names) -> String.eqb a "=" = false ->
     parse_immediate [tok] l = FOk (EArith x) -> closed x v ->
     c_form l [t0; a; tok] name [AStr a; AInt v]
-| FC_i t0 name tok x v :                (* c.addi16sp / c.j c.jal *)
-    lower t0 = name -> In name (cia_names ++ cj_names) ->
+| FC_rb t0 name a tok x v :             (* c.beqz c.bnez with a literal offset (an integer literal: any other single token is a reference) *)
+    lower t0 = name -> In name cbz_names -> String.eqb a "=" = false -> is_int tok = true ->
+    parse_immediate [tok] l = FOk (EArith x) -> closed x v ->
+    c_form l [t0; a; tok] name [AStr a; AInt v]
+| FC_i t0 name tok x v :                (* c.addi16sp *)
+    lower t0 = name -> In name cia_names ->
+    parse_immediate [tok] l = FOk (EArith x) -> closed x v ->
+    c_form l [t0; tok] name [AInt v]
+| FC_j t0 name tok x v :                (* c.j c.jal with a literal offset *)
+    lower t0 = name -> In name cj_names -> is_int tok = true ->
     parse_immediate [tok] l = FOk (EArith x) -> closed x v ->
     c_form l [t0; tok] name [AInt v]
 | FC_rri t0 name a b tok x v :          (* c.lw / c.sw *)
@@ -437,9 +459,9 @@ Inductive c_form (l : line) : list string -> string -> list arg -> Prop :=
     c_form l [t0; a; b; tok] name [AStr a; AStr b; AInt v].
 
 Lemma tables_c : forallb (fun n => mem_str n c_mnemonics)
-  ((cr_names ++ ca_names) ++ crj_names ++ (ci_names ++ css_names ++ ciw_names ++ cb_names) ++ (cia_names ++ cj_names) ++ (cl_names ++ cs_names)) = true.
+  ((cr_names ++ ca_names) ++ crj_names ++ (ci_names ++ css_names ++ ciw_names ++ cbi_names) ++ cbz_names ++ (cia_names ++ cj_names) ++ (cl_names ++ cs_names)) = true.
 Proof. vm_compute. reflexivity. Qed.
-Lemma table_c n : In n ((cr_names ++ ca_names) ++ crj_names ++ (ci_names ++ css_names ++ ciw_names ++ cb_names) ++ (cia_names ++ cj_names) ++ (cl_names ++ cs_names)) ->
+Lemma table_c n : In n ((cr_names ++ ca_names) ++ crj_names ++ (ci_names ++ css_names ++ ciw_names ++ cbi_names) ++ cbz_names ++ (cia_names ++ cj_names) ++ (cl_names ++ cs_names)) ->
   In n c_mnemonics.
 Proof. intro H. pose proof tables_c as T. rewrite forallb_forall in T. apply AcceptMono.mem_in. apply T. exact H. Qed.
 
@@ -454,7 +476,8 @@ Lemma c_form_item l toks name args : c_form l toks name args ->
     closed_imm fs /\ args_of (set_lit fs) = args /\ reg_strs fs = arg_strs args /\
     (name = "jalr" -> field_get "is_auipc_jump" fs <> None).
 Proof.
-  intros [t0 n a b Hl Hn Hrd|t0 n a Hl Hn|t0 n a tok x v Hl Hn Hrd Hp Ha|t0 n tok x v Hl Hn Hp Ha|t0 n a b tok x v Hl Hn Hrd Ht Hp Ha].
+  intros [t0 n a b Hl Hn Hrd|t0 n a Hl Hn|t0 n a tok x v Hl Hn Hrd Hp Ha|t0 n a tok x v Hl Hn Hrd Hi Hp Ha|t0 n tok x v Hl Hn Hp Ha
+         |t0 n tok x v Hl Hn Hi Hp Ha|t0 n a b tok x v Hl Hn Hrd Ht Hp Ha].
   - split. { apply table_c. apply in_or_app. left. exact Hn. }
     apply in_app_or in Hn. destruct Hn as [Hn|Hn]; [c_item cr_parse Hl Hn|c_item ca_parse Hl Hn].
   - split. { apply table_c. apply in_or_app. right. apply in_or_app. left. exact Hn. }
@@ -462,10 +485,14 @@ Proof.
   - split. { apply table_c. do 2 (apply in_or_app; right). apply in_or_app. left. exact Hn. }
     apply in_app_or in Hn. destruct Hn as [Hn|Hn]; [c_item ci_parse Ha Hn|].
     apply in_app_or in Hn. destruct Hn as [Hn|Hn]; [c_item css_parse Ha Hn|].
-    apply in_app_or in Hn. destruct Hn as [Hn|Hn]; [c_item ciw_parse Ha Hn|c_item cb_parse Ha Hn].
+    apply in_app_or in Hn. destruct Hn as [Hn|Hn]; [c_item ciw_parse Ha Hn|c_item cbi_parse Ha Hn].
   - split. { apply table_c. do 3 (apply in_or_app; right). apply in_or_app. left. exact Hn. }
-    apply in_app_or in Hn. destruct Hn as [Hn|Hn]; [c_item cia_parse Ha Hn|c_item cj_parse Ha Hn].
-  - split. { apply table_c. do 4 (apply in_or_app; right). exact Hn. }
+    c_item cbz_parse Ha Hn.
+  - split. { apply table_c. do 4 (apply in_or_app; right). apply in_or_app. left. apply in_or_app. left. exact Hn. }
+    c_item cia_parse Ha Hn.
+  - split. { apply table_c. do 4 (apply in_or_app; right). apply in_or_app. left. apply in_or_app. right. exact Hn. }
+    c_item cj_parse Ha Hn.
+  - split. { apply table_c. do 5 (apply in_or_app; right). exact Hn. }
     apply in_app_or in Hn. destruct Hn as [Hn|Hn]; [c_item cl_parse Ha Hn|c_item cs_parse Ha Hn].
 Qed.
 
